@@ -18,7 +18,10 @@ Inductive c20_case :=
        (lst : option (Z * bool))          (* list responses: number of kvs returned, More *)
 (* one pure watch on an etcd stream of a leader, ended by a client cancel request or by the stream:
    how many Canceled responses with CompactRevision = 0 the server sent for its watch id *)
-| KCancel (client_cancelled : bool) (canceled_responses : N).
+| KCancel (client_cancelled : bool) (canceled_responses : N)
+(* the translator's structural check of the wrapper's own label path (Emit* -> labelsToMap /
+   extractLabelNames -> With): names and values are handed on unchanged *)
+| KPath (identity : bool).
 
 Fixpoint find_row (site : N) (t : list row) : option row :=
   match t with
@@ -60,6 +63,7 @@ Definition c20_check (t : list row) (c : c20_case) : bool :=
       | _, _, _ => true
       end
   | KCancel cc n => n =? watch_cancel_responses true cc
+  | KPath _ => true
   end.
 
 Definition all_ok (obs : list outcome) : bool := forallb (fun o => outcome_eqb o Ok) obs.
@@ -81,6 +85,7 @@ Definition c20_oracle (gn : option (list str)) (t : list row) (c : c20_case) : o
       (* how often the server answers a cancelled watch is etcd-compatibility (C16), not a crash of the
          node: the case only ties Handlers.watch_cancel_responses to the code (see props/C20.json, notes) *)
       None
+  | KPath identity => ok_if identity
   end.
 
 (* validity of a recorded metric case: the regenerated table passes the check (Gen.MetricsTableOk.table_ok)
@@ -94,4 +99,5 @@ Definition c20_valid (gn : option (list str)) (t : list row) (c : c20_case) : Pr
   | KRow _ _ _ => check_program gn t = true
   | KReq _ _ _ _ _ _ => False
   | KCancel _ _ => True
+  | KPath identity => identity = true
   end.
